@@ -188,7 +188,7 @@ def run(ctx):
     nohyp = sum(1 for l in res if l.endswith(" nohyp"))
     distinct = len(set(l.split("\t", 2)[2] for l in lines if l.count("\t") >= 2))
     outcomes = {"all_ok": 0, "with_error": 0, "with_panic": 0}
-    kinds = {k: sum(1 for l in lines if l.startswith(k + "\t")) for k in ("S", "I", "M", "L", "P", "RA", "DA", "RH", "DH")}
+    kinds = {k: sum(1 for l in lines if l.startswith(k + "\t")) for k in ("S", "I", "M", "L", "P", "RA", "DA", "RH", "DH", "Y", "D")}
     for l in lines:
         if not l.startswith("S\t"):
             continue
